@@ -16,17 +16,39 @@ pub enum TEv {
     Frame { t: u64, hex: String, note: String },
     /// `Airplanes::prune(secs)` called at virtual time `t` (ns)
     Prune { t: u64, secs: u64 },
+    /// `count` deliveries starting at `t`, `dt` ns apart, cycling through `hexes` (long contacts:
+    /// tens of thousands of frames of one aircraft without a megabyte-sized scenario)
+    Burst { t: u64, dt: u64, hexes: Vec<String>, count: u32 },
+}
+
+/// expand bursts into single deliveries (execution works on the expanded list)
+pub fn expand(events: &[TEv]) -> Vec<TEv> {
+    let mut out = Vec::with_capacity(events.len());
+    for e in events {
+        match e {
+            TEv::Burst { t, dt, hexes, count } => {
+                if hexes.is_empty() {
+                    continue;
+                }
+                for i in 0..*count as u64 {
+                    out.push(TEv::Frame { t: t + i * dt, hex: hexes[(i as usize) % hexes.len()].clone(), note: String::new() });
+                }
+            }
+            other => out.push(other.clone()),
+        }
+    }
+    out
 }
 
 impl TEv {
     fn t(&self) -> u64 {
         match self {
-            TEv::Frame { t, .. } | TEv::Prune { t, .. } => *t,
+            TEv::Frame { t, .. } | TEv::Prune { t, .. } | TEv::Burst { t, .. } => *t,
         }
     }
     fn t_mut(&mut self) -> &mut u64 {
         match self {
-            TEv::Frame { t, .. } | TEv::Prune { t, .. } => t,
+            TEv::Frame { t, .. } | TEv::Prune { t, .. } | TEv::Burst { t, .. } => t,
         }
     }
 }
@@ -274,11 +296,99 @@ fn generate_crowded(rng: &mut Rng) -> TScenario {
             events.push(TEv::Prune { t: *t, secs: filter_t });
         }
     }
+    // then silence: everything that is left is due in one expiry call
+    let last = events.last().map(TEv::t).unwrap_or(0);
+    let wait = *rng.pick(&[filter_t * NS, 10 * filter_t * NS, filter_t * NS + 1]);
+    events.push(TEv::Prune { t: last + wait, secs: filter_t });
+    TScenario { lat, lon, max_range: 500.0, events }
+}
+
+/// More than 4096 aircraft tracked at once, a long silence, then new arrivals; the caller's own
+/// expiry threshold is long (nothing may disappear in between).
+fn generate_mega_crowd(rng: &mut Rng) -> TScenario {
+    let n = 4100 + rng.usize_below(400);
+    let mut events = vec![];
+    let mut t = 0u64;
+    let mut used = std::collections::BTreeSet::new();
+    let mut fresh = |rng: &mut Rng| loop {
+        let a = [rng.next_u64() as u8, rng.next_u64() as u8, rng.next_u64() as u8];
+        if used.insert(a) {
+            return a;
+        }
+    };
+    for i in 0..n {
+        let a = fresh(rng);
+        let me = if i % 3 == 0 { wire::me_identification(4, 0, "CROWD") } else { wire::me_velocity(1, 0, wire::sub_ground_speed(0, 200, 0, 100), 0, 0, 5, 0, 3) };
+        events.push(TEv::Frame { t, hex: wire::hex(&wire::df17(5, a, me)), note: String::new() });
+        t += 1_000_000;
+    }
+    events.push(TEv::Prune { t, secs: 3600 });
+    t += *rng.pick(&[299u64, 301, 400, 1000]) * NS;
+    for _ in 0..20 + rng.below(60) {
+        let a = fresh(rng);
+        events.push(TEv::Frame { t, hex: wire::hex(&wire::df17(5, a, wire::me_identification(4, 0, "LATE"))), note: String::new() });
+        t += 50_000_000;
+    }
+    events.push(TEv::Prune { t, secs: 3600 });
+    TScenario { lat: 35.0, lon: -80.0, max_range: 500.0, events }
+}
+
+/// One contact heard 100 000+ times (a fixed transponder, an aircraft in a holding pattern),
+/// interleaved with a little other traffic.
+fn generate_long_count(rng: &mut Rng) -> TScenario {
+    let a = [0x48, 0x40, 0xd6];
+    let b = [0xa0, 0x00, 0x01];
+    let df18 = rng.coin();
+    let mk = |me: [u8; 7]| if df18 { wire::df18(2, a, me) } else { wire::df17(5, a, me) };
+    let hexes = vec![
+        wire::hex(&mk(wire::me_velocity(1, 0, wire::sub_ground_speed(0, 300, 1, 120), 0, 0, 9, 0, 3))),
+        wire::hex(&mk(wire::me_identification(4, 0, "HOLD1"))),
+        wire::hex(&wire::df17(5, a, wire::me_raw(29, 0x1234))),
+    ];
+    let count = *rng.pick(&[65_600u32, 100_050, 131_200]);
+    let mut events = vec![TEv::Frame { t: 0, hex: wire::hex(&wire::df17(5, b, wire::me_identification(4, 0, "OTHER"))), note: String::new() }];
+    events.push(TEv::Burst { t: 1_000, dt: 10_000_000, hexes, count });
+    let end = 1_000 + count as u64 * 10_000_000;
+    events.push(TEv::Frame { t: end, hex: wire::hex(&wire::df17(5, b, wire::me_identification(4, 0, "OTHER"))), note: String::new() });
+    events.push(TEv::Prune { t: end, secs: 1 << 40 });
+    TScenario { lat: 35.0, lon: -80.0, max_range: 500.0, events }
+}
+
+/// A survivor with a very long track (more than 8192 accepted positions) across expiry calls that
+/// remove another aircraft.
+fn generate_long_track_with_expiry(rng: &mut Rng) -> TScenario {
+    let a = [0x40, 0x62, 0x1d];
+    let b = [0xa0, 0x00, 0x02];
+    let (lat, lon) = (52.0, 4.0);
+    let mut hexes = vec![];
+    for odd in [false, true] {
+        let (yz, xz) = wire::cpr_encode(lat + 0.2, lon + 0.1, odd);
+        hexes.push(wire::hex(&wire::df17(5, a, wire::me_airborne_position(11, 0, 0, wire::ac12_q(30_000), false, odd, yz, xz))));
+    }
+    let count = *rng.pick(&[4_200u32, 8_300, 8_300, 16_500]);
+    let dt = 500_000_000u64;
+    let mut events = vec![TEv::Frame { t: 0, hex: wire::hex(&wire::df17(5, b, wire::me_identification(4, 0, "GONE"))), note: String::new() }];
+    events.push(TEv::Burst { t: 1_000, dt, hexes: hexes.clone(), count });
+    let end = 1_000 + count as u64 * dt;
+    events.push(TEv::Prune { t: end, secs: 60 });
+    events.push(TEv::Burst { t: end + dt, dt, hexes, count: 4 });
+    events.push(TEv::Prune { t: end + 5 * dt, secs: 60 });
     TScenario { lat, lon, max_range: 500.0, events }
 }
 
 #[allow(clippy::too_many_lines)]
 pub fn generate(rng: &mut Rng, fault_free: bool, focus: &str) -> TScenario {
+    if !fault_free {
+        let r = rng.f64();
+        match focus {
+            "C12" if r < 0.0006 => return generate_mega_crowd(rng),
+            "C12" if r < 0.0012 => return generate_long_count(rng),
+            "C15" if r < 0.0006 => return generate_long_track_with_expiry(rng),
+            "C15" if r < 0.0010 => return generate_mega_crowd(rng),
+            "C14" if r < 0.0004 => return generate_long_track_with_expiry(rng),
+            _ => {}
+        }
+    }
     if focus == "C14" && !fault_free && rng.chance(0.003) {
         return generate_long_haul(rng);
     }
@@ -609,7 +719,39 @@ impl Engine for TrackerEngine {
         exec::execute(sc, exec::Mask::only(self.prop))
     }
     fn shrink(&self, sc: &TScenario) -> Vec<TScenario> {
-        let mut c: Vec<TScenario> = drop_chunks(&sc.events).into_iter().map(|events| TScenario { events, ..sc.clone() }).collect();
+        let mut c: Vec<TScenario> = if sc.events.len() > 1200 {
+            // big scenarios: coarse chunks only (a finer pass follows once it has shrunk)
+            let n = sc.events.len();
+            let mut v = vec![];
+            let mut size = n / 2;
+            while size >= n / 32 && size >= 1 {
+                let mut start = 0;
+                while start < n {
+                    let end = (start + size).min(n);
+                    let mut ev = sc.events[..start].to_vec();
+                    ev.extend_from_slice(&sc.events[end..]);
+                    v.push(TScenario { events: ev, ..sc.clone() });
+                    start += size;
+                }
+                size /= 2;
+            }
+            v
+        } else {
+            drop_chunks(&sc.events).into_iter().map(|events| TScenario { events, ..sc.clone() }).collect()
+        };
+        for (i, e) in sc.events.iter().enumerate() {
+            if let TEv::Burst { count, .. } = e {
+                for nc in [count / 2, count - count / 8, count.saturating_sub(1)] {
+                    if nc >= 1 && nc < *count {
+                        let mut s2 = sc.clone();
+                        if let TEv::Burst { count: c2, .. } = &mut s2.events[i] {
+                            *c2 = nc;
+                        }
+                        c.push(s2);
+                    }
+                }
+            }
+        }
         // simpler receiver / range
         if sc.lat != 0.0 || sc.lon != 0.0 {
             c.push(TScenario { lat: 0.0, lon: 0.0, ..sc.clone() });
@@ -637,12 +779,13 @@ impl Engine for TrackerEngine {
             "first_events": sc.events.iter().take(14).map(|e| match e {
                 TEv::Frame { t, hex, note } => format!("t={:.6}s frame {hex}{}", *t as f64 / 1e9, if note.is_empty() { String::new() } else { format!(" [{note}]") }),
                 TEv::Prune { t, secs } => format!("t={:.6}s prune({secs})", *t as f64 / 1e9),
+                TEv::Burst { t, dt, hexes, count } => format!("t={:.6}s burst of {count} deliveries every {:.3}s cycling {:?}", *t as f64 / 1e9, *dt as f64 / 1e9, hexes),
             }).collect::<Vec<_>>()
         })
     }
     fn expected_probes(&self) -> Vec<&'static str> {
         match self.prop {
-            "C12" => vec!["second_frame_of_address", "df18_for_known_address", "non_es_frame", "re_add_after_expiry", "isolation_replay_with_interleaved_traffic"],
+            "C12" => vec!["second_frame_of_address", "df18_for_known_address", "non_es_frame", "re_add_after_expiry", "isolation_replay_with_interleaved_traffic", "more_than_100_distinct_addresses", "more_than_4096_tracked_at_once", "contact_with_100000_messages"],
             "C13" => vec!["range_reject", "jump_reject", "pair_accepted", "accept_with_previous_position", "clear_of_published_position", "acquisition", "publication_at_high_latitude", "publication_across_antimeridian", "same_parity_replaces_stored_report", "threshold_band_or_dont_care"],
             "C14" => vec!["callsign_changed", "velocity_without_information_after_valid", "details_available", "position_without_details_altitude_missing", "track_with_three_positions", "current_position_republished", "track_longer_than_2048"],
             "C14x" => vec![],
